@@ -74,6 +74,10 @@ func run(in string) string {
 		r = runWire(f)
 	case "H":
 		r = runHandle(f)
+	case "M":
+		r = runManager(f)
+	case "N":
+		r = runFromParameters(f)
 	case "GENFAIL":
 		r = "genfail|chk=" + f[1]
 	default:
@@ -129,13 +133,13 @@ func class(in, obs string) string {
 		return "P/" + f[1] + "/" + msgNameOfURL(f[2])[len("google.crypto.tink."):] + "/p" + f[3] + "/" + fmt.Sprint(len(f[4])/16) + "/" + res
 	case "W":
 		return "W/" + f[1] + "/" + f[2][len("google.crypto.tink."):] + "/" + res
-	case "H":
+	case "H", "M", "N":
 		n := len(strings.Split(f[7], ";"))
 		fam := ""
 		if es := strings.Split(f[7], ";"); len(es) > 0 {
 			fam = familyOf(strings.Split(es[0], "~")[4])
 		}
-		return "H/" + f[1] + "/" + f[2] + "/" + fam + "/n" + fmt.Sprint(n) + "/" + res
+		return f[0] + "/" + f[1] + "/" + f[2] + "/" + fam + "/n" + fmt.Sprint(n) + "/" + res
 	}
 	return ""
 }
